@@ -31,31 +31,53 @@ def pinned_selftests(ctx, base_cfg, fixes):
     return out
 
 
+def select_scripts(allitems, every, offset):
+    """deterministic thinning of the model's complete histories: every `every`-th of each stratum (device, methods called), ranked by
+    content, so the selection does not depend on TLC's dump order and no stratum is left without a representative"""
+    if every <= 1:
+        return list(range(len(allitems)))
+    strata = {}
+    for idx, (hist, dev, board, _st) in enumerate(allitems):
+        key = repr((sorted(board.items()) if isinstance(board, dict) else board, [(h["m"], list(h["a"]), h["s"], repr(h["env"])) for h in hist]))
+        strata.setdefault((dev, tuple(h["m"] for h in hist)), []).append((key, idx))
+    chosen = []
+    for members in strata.values():
+        members.sort()
+        size = len(members)
+        for rank, (_k, idx) in enumerate(members):
+            if (rank + offset) % every == 0 or (size < every and rank == offset % size):
+                chosen.append(idx)
+    return sorted(chosen)
+
+
 def g_scripts(ctx, focus, name, cfg, ncalls, start_connected, cap=None, every=1):
     dump = os.path.join(ctx.workdir, name, "states")
     ctx.run_tlc(name, "EBB3LinkMC", cfg, dump=dump)
     items, events, drifts = [], [], 0
-    n = 0
-    for hist, dev, board, st in L.scripts_from_dump(dump + ".dump", ncalls):
-        n += 1
-        if n % every or (cap and len(items) >= cap):
-            continue
+    allitems = [(hist, dev, board, None) for hist, dev, board, _st in L.scripts_from_dump(dump + ".dump", ncalls)]
+    n = len(allitems)
+    strata = len({(dev, tuple(h["m"] for h in hist)) for hist, dev, _b, _s in allitems})
+    for k, idx in enumerate(select_scripts(allitems, every, ctx.seed)):
+        if cap and len(items) >= cap:
+            break
+        hist, dev, board, _st = allitems[idx]
         calls, drift = L.run_script(hist, dev, board, start_connected)
-        script = [[h["m"], list(h["a"]), h["s"], [dict((k, v) for k, v in e.items() if k != "r") for e in h["env"]]] for h in hist]      # incl. <replug> entries
+        script = [[h["m"], list(h["a"]), h["s"], [dict((k2, v) for k2, v in e.items() if k2 != "r") for e in h["env"]]] for h in hist]      # incl. <replug> entries
         ctx.count((focus, repr(script), dev))
         items.append((calls, dev, board, script))
         events.append(L.event_of(calls, dev, board, focus))
         if drift:
             drifts += 1
             ctx.note_drift("real object differs from the impl-shaped model's prediction", {"script": script, "diff": drift[:1]})
-        if n % 997 == 1:
+        if k % 997 == 1:
             ctx.sample({"mode": "G", "script": script, "device": dev, "observed": [[c["m"], c["ret"], c["err_set"], [o["t"] for o in c["ops"] if o["k"] == "w"]] for c in calls]})
+    del allitems
     os.remove(dump + ".dump")
     vs = L.judge(ctx, name + ".judge", events)
     rej, skipped = L.report(ctx, focus, "G", items, vs, None)
     ctx.skipped += skipped
     ctx.traces += len(items)
-    ctx.stage(name + ".G", kind="spec->code->spec", complete_histories_in_model=n, executed=len(items), rejected=rej, drifted=drifts, skipped=skipped)
+    ctx.stage(name + ".G", kind="spec->code->spec", complete_histories_in_model=n, strata=strata, every=every, executed=len(items), rejected=rej, drifted=drifts, skipped=skipped)
     return n
 
 
